@@ -223,6 +223,7 @@ Qed.
 Section Proofs.
 Variable crc : list byte -> N.
 Variable cfg : vcfg.
+Variable chk : bool.
 Hypothesis POK : vlog_params_ok = true.
 
 (* ------------------------------------------------------------------------------ framing *)
@@ -290,6 +291,9 @@ Definition pin (G : N -> list byte) (a : N) (p : vpointer) (v : list byte) : Pro
   vpt_file p <= a /\ pframed (G (vpt_file p)) p v.
 Definition live_ptr (G : N -> list byte) (st : vstate) (p : vpointer) (v : list byte) : Prop :=
   pin G (vs_active st) p v /\ has_file st (vpt_file p).
+(* a pointer held by an open reader: when the run-time clean-up tests for readers, its file exists as well *)
+Definition rptr (G : N -> list byte) (st : vstate) (p : vpointer) (v : list byte) : Prop :=
+  pin G (vs_active st) p v /\ (chk = true -> has_file st (vpt_file p)).
 Definition entry_good (P : vpointer -> list byte -> Prop) (e : tentry) : Prop :=
   match te_orig e with
   | None => te_enc e = []
@@ -307,7 +311,7 @@ Record dinv (G : N -> list byte) (st : vstate) : Prop := {
   i_tables : forall t, In t (vs_tables st) ->
              tb_oldest t = table_oldest (tb_entries t) /\ forall e, In e (tb_entries t) -> entry_good (live_ptr G st) e;
   i_index : forall e, In e (vs_index st) -> entry_good (live_ptr G st) e;
-  i_readers : forall rid ts t e, In (rid, ts) (vs_readers st) -> In t ts -> In e (tb_entries t) -> entry_good (pin G (vs_active st)) e;
+  i_readers : forall rid ts t e, In (rid, ts) (vs_readers st) -> In t ts -> In e (tb_entries t) -> entry_good (rptr G st) e;
   i_cache : forall f o v, In ((f, o), v) (vs_cache st) -> f <= vs_active st /\ exists k, framed (G f) o k v }.
 Definition vinvG (G : N -> list byte) (st : vstate) : Prop := finv G st /\ dinv G st.
 
@@ -361,8 +365,8 @@ Proof.
   - rewrite Et. intros t Ht. destruct (Dt t Ht) as [Ho He]. split; [exact Ho|].
     intros e Hin. apply (entry_good_mono _ _ _ L). apply He. exact Hin.
   - rewrite Ei. intros e Hin. apply (entry_good_mono _ _ _ L). apply Di. exact Hin.
-  - rewrite Er. intros rid ts t e H1 H2 H3. apply (entry_good_mono (pin G (vs_active st))); [|apply (Dr rid ts t e H1 H2 H3)].
-    intros p v Hp. apply (pin_ext _ _ _ _ _ _ Hg Ha Hp).
+  - rewrite Er. intros rid ts t e H1 H2 H3. apply (entry_good_mono (rptr G st)); [|apply (Dr rid ts t e H1 H2 H3)].
+    intros p v [Hp Hcf]. split; [apply (pin_ext _ _ _ _ _ _ Hg Ha Hp) | intros Ek; apply Hh; apply Hcf; exact Ek].
   - rewrite Ec. intros f o v Hin. destruct (Dc f o v Hin) as [Hf [k Hk]]. split; [lia|].
     destruct (Hg _ Hf) as [more E]. exists k. rewrite E. apply framed_app. exact Hk.
 Qed.
@@ -623,9 +627,9 @@ Proof.
   intros G st p v F [_ (f & Hin & Hid)]. destruct (i_range G st F f Hin) as [H1 _]. unfold VLOG_NO_REF. lia.
 Qed.
 
-Lemma vinv_cleanup : forall G st, vinvG G st -> vinvG G (vs_cleanup st).
+Lemma vinv_cleanup : forall G st, (chk = true -> vs_readers st = []) -> vinvG G st -> vinvG G (vs_cleanup st).
 Proof.
-  intros G st [F D]. pose proof F as F0. pose proof D as D0. destruct F as [F1 F2 F3 F4 F5]. destruct D as [Dt Di Dr Dc].
+  intros G st Hnr [F D]. pose proof F as F0. pose proof D as D0. destruct F as [F1 F2 F3 F4 F5]. destruct D as [Dt Di Dr Dc].
   destruct (cleanup_same st) as (Ea & En & Et & Ec & Er).
   (* a live pointer stays live *)
   assert (KT : forall t e p v, In t (vs_tables st) -> In e (tb_entries t) -> venc_classify (te_enc e) = EPtr p ->
@@ -655,8 +659,37 @@ Proof.
       destruct (venc_classify (te_enc e)) as [v'|p|] eqn:Ecl; try exact Di.
       destruct Di as [Hp (f & Hf & Hid)]. split; [rewrite Ea; exact Hp|]. exists f. split; [|exact Hid].
       apply (cleanup_index_consistent st e p f He); [apply pointer_of_classify; exact Ecl | exact Hf | exact Hid].
-    + rewrite Er, Ea. exact Dr.
+    + rewrite Er. intros rid ts t e H1 H2 H3.
+      assert (Hb : chk = true \/ chk = false) by (destruct chk; [left | right]; reflexivity).
+      destruct Hb as [Echk|Echk].
+      * rewrite (Hnr Echk) in H1. destruct H1.
+      * apply (entry_good_mono (rptr G st)); [|apply (Dr rid ts t e H1 H2 H3)].
+        intros p v [Hp _]. split; [rewrite Ea; exact Hp | intros Hf; rewrite Echk in Hf; discriminate Hf].
     + rewrite Ec, Ea. exact Dc.
+Qed.
+
+Lemma cleanup_rt_cases : forall st, vs_cleanup_rt chk st = st \/ (vs_cleanup_rt chk st = vs_cleanup st /\ (chk = true -> vs_readers st = [])).
+Proof.
+  intros st. unfold vs_cleanup_rt, no_readers.
+  assert (Hb : chk = true \/ chk = false) by (destruct chk; [left | right]; reflexivity).
+  destruct Hb as [Echk|Echk]; rewrite Echk; cbn [andb].
+  - destruct (vs_readers st); cbn [negb]; [right; split; [reflexivity | reflexivity] | left; reflexivity].
+  - right. split; [reflexivity | intros H; discriminate H].
+Qed.
+Lemma vinv_cleanup_rt : forall G st, vinvG G st -> vinvG G (vs_cleanup_rt chk st).
+Proof.
+  intros G st H. destruct (cleanup_rt_cases st) as [E|[E Hn]]; rewrite E; [exact H | apply vinv_cleanup; assumption].
+Qed.
+Lemma cleanup_rt_files_subset : forall st f, In f (vs_files (vs_cleanup_rt chk st)) -> In f (vs_files st).
+Proof.
+  intros st f H. destruct (cleanup_rt_cases st) as [E|[E _]]; rewrite E in H; [exact H | apply cleanup_files_subset; exact H].
+Qed.
+Lemma cleanup_rt_same : forall st,
+  vs_active (vs_cleanup_rt chk st) = vs_active st /\ vs_next (vs_cleanup_rt chk st) = vs_next st /\
+  vs_tables (vs_cleanup_rt chk st) = vs_tables st /\ vs_cache (vs_cleanup_rt chk st) = vs_cache st /\
+  vs_readers (vs_cleanup_rt chk st) = vs_readers st.
+Proof.
+  intros st. destruct (cleanup_rt_cases st) as [E|[E _]]; rewrite E; [repeat split | apply cleanup_same].
 Qed.
 
 (* ------------------------------------------------------------------------------ changes of the data part only *)
@@ -665,7 +698,7 @@ Lemma vinv_data : forall G st st',
   vs_files st' = vs_files st -> vs_active st' = vs_active st -> vs_next st' = vs_next st ->
   (forall t, In t (vs_tables st') -> tb_oldest t = table_oldest (tb_entries t) /\ forall e, In e (tb_entries t) -> entry_good (live_ptr G st) e) ->
   (forall e, In e (vs_index st') -> entry_good (live_ptr G st) e) ->
-  (forall rid ts t e, In (rid, ts) (vs_readers st') -> In t ts -> In e (tb_entries t) -> entry_good (pin G (vs_active st)) e) ->
+  (forall rid ts t e, In (rid, ts) (vs_readers st') -> In t ts -> In e (tb_entries t) -> entry_good (rptr G st) e) ->
   (forall x, In x (vs_cache st') -> In x (vs_cache st)) ->
   vinvG G st'.
 Proof.
@@ -682,15 +715,20 @@ Proof.
   - split.
     + intros t Hin. destruct (Ht t Hin) as [Ho He]. split; [exact Ho|]. intros e Hine. apply (entry_good_mono _ _ _ L). apply He. exact Hine.
     + intros e Hin. apply (entry_good_mono _ _ _ L). apply Hi. exact Hin.
-    + rewrite Ea. exact Hr.
+    + intros rid ts t e H1 H2 H3. apply (entry_good_mono (rptr G st)); [|apply (Hr rid ts t e H1 H2 H3)].
+      intros p v [Hp Hcf]. split; [rewrite Ea; exact Hp|]. intros Ek. destruct (Hcf Ek) as (f & Hf & Hid). exists f. rewrite Ef. split; assumption.
     + rewrite Ea. intros f o v Hin. apply Dc. apply Hc. exact Hin.
 Qed.
 
 Lemma live_pin : forall G st p v, live_ptr G st p v -> pin G (vs_active st) p v.
 Proof. intros G st p v [H _]. exact H. Qed.
+Lemma live_rptr : forall G st p v, live_ptr G st p v -> rptr G st p v.
+Proof. intros G st p v [H1 H2]. split; [exact H1 | intros _; exact H2]. Qed.
+Lemma rptr_pin : forall G st p v, rptr G st p v -> pin G (vs_active st) p v.
+Proof. intros G st p v [H _]. exact H. Qed.
 
 (* ------------------------------------------------------------------------------ flush *)
-Lemma vinv_flush : forall G st now tid mem st', vinvG G st -> vs_flush crc cfg now tid mem st = Some st' ->
+Lemma vinv_flush : forall G st now tid mem st', vinvG G st -> vs_flush crc cfg chk now tid mem st = Some st' ->
   exists G', vinvG G' st' /\ fresh st st'.
 Proof.
   intros G st now tid mem st' Hinv H. unfold vs_flush in H.
@@ -720,10 +758,10 @@ Proof.
       + apply (i_index G1 st2 (proj2 I2)). exact Hin.
     - apply (i_readers G1 st2 (proj2 I2)).
     - auto. }
-  change (vinvG G1 (vs_cleanup st3) /\ fresh st (vs_cleanup st3)).
-  split; [apply vinv_cleanup; exact I3|].
-  destruct Hfr as [Hn Hf]. destruct (cleanup_same st3) as (_ & En & _). split; [rewrite En; exact Hn|].
-  intros f' Hin. apply cleanup_files_subset in Hin. cbn [st3 set_index set_tables vs_files st2 vs_sync_active set_files] in Hin.
+  change (vinvG G1 (vs_cleanup_rt chk st3) /\ fresh st (vs_cleanup_rt chk st3)).
+  split; [apply vinv_cleanup_rt; exact I3|].
+  destruct Hfr as [Hn Hf]. destruct (cleanup_rt_same st3) as (_ & En & _). split; [rewrite En; exact Hn|].
+  intros f' Hin. apply cleanup_rt_files_subset in Hin. cbn [st3 set_index set_tables vs_files st2 vs_sync_active set_files] in Hin.
   apply in_update_file in Hin. destruct Hin as (f & Hin & E). subst f'.
   destruct (N.eqb (vf_id f) (vs_active st1)); apply (Hf f Hin).
 Qed.
@@ -738,7 +776,7 @@ Proof.
     destruct Hin as [E|Hin]; [subst; apply (find_some _ _ Fx) | apply (IH es' eq_refl e Hin)].
 Qed.
 
-Lemma vinv_compact : forall G st ins tid out st', vinvG G st -> vs_compact ins tid out st = Some st' ->
+Lemma vinv_compact : forall G st ins tid out st', vinvG G st -> vs_compact chk ins tid out st = Some st' ->
   vinvG G st' /\ fresh st st'.
 Proof.
   intros G st ins tid out st' Hinv H. unfold vs_compact in H.
@@ -761,9 +799,9 @@ Proof.
     - apply (i_index G st (proj2 Hinv)).
     - apply (i_readers G st (proj2 Hinv)).
     - auto. }
-  split; [apply vinv_cleanup; exact I2|].
-  destruct (cleanup_same (set_tables st ts)) as (_ & En & _). split; [rewrite En; cbn [set_tables vs_next]; lia|].
-  intros f' Hin. apply cleanup_files_subset in Hin. left. exists f'. split; [exact Hin | reflexivity].
+  split; [apply vinv_cleanup_rt; exact I2|].
+  destruct (cleanup_rt_same (set_tables st ts)) as (_ & En & _). split; [rewrite En; cbn [set_tables vs_next]; lia|].
+  intros f' Hin. apply cleanup_rt_files_subset in Hin. left. exists f'. split; [exact Hin | reflexivity].
 Qed.
 
 (* ------------------------------------------------------------------------------ reopen *)
@@ -807,7 +845,7 @@ Proof.
     - apply (i_index G _ (proj2 I1)).
     - intros rid ts t e [].
     - intros x Hin. cbn [st2 vs_cache] in Hin. destruct keep; [exact Hin | destruct Hin]. }
-  split; [apply vinv_cleanup; exact I2|].
+  split; [apply vinv_cleanup; [intros _; reflexivity | exact I2]|].
   destruct (cleanup_same st2) as (_ & En & _). split; [rewrite En; cbn [st2 vs_next]; lia|].
   intros f' Hin. apply cleanup_files_subset in Hin. cbn [st2 vs_files] in Hin. apply in_update_file in Hin.
   destruct Hin as (f & Hin & E). left. exists f. split; [exact Hin|]. subst f'. destruct (N.eqb (vf_id f) (vs_active st)); reflexivity.
@@ -876,7 +914,7 @@ Proof.
 Qed.
 
 (* ------------------------------------------------------------------------------ every operation *)
-Lemma vinv_step : forall G st o st', vinvG G st -> vs_step crc cfg st o = Some st' ->
+Lemma vinv_step : forall G st o st', vinvG G st -> vs_step crc cfg chk st o = Some st' ->
   exists G', vinvG G' st' /\ fresh st st'.
 Proof.
   intros G st o st' Hinv H. destruct o as [now tid mem|ins tid out|keep|rid|rid|tid i|i|rid tid i]; cbn [vs_step] in H.
@@ -889,7 +927,7 @@ Proof.
     + apply (i_index G st (proj2 Hinv)).
     + intros rid0 ts t e Hin Ht He. cbn [set_readers vs_readers] in Hin. destruct Hin as [E|Hin].
       * injection E as E1 E2. subst rid0 ts. destruct (i_tables G st (proj2 Hinv) t Ht) as [_ Hg].
-        apply (entry_good_mono _ _ _ (live_pin G st)). apply Hg. exact He.
+        apply (entry_good_mono _ _ _ (live_rptr G st)). apply Hg. exact He.
       * apply (i_readers G st (proj2 Hinv) rid0 ts t e Hin Ht He).
     + auto.
   - injection H as H. subst st'. exists G. split; [|apply fresh_same; reflexivity].
@@ -909,7 +947,7 @@ Proof.
     split; [|unfold vs_read_entry; destruct (entry_at (reader_tables rid (vs_readers st)) tid i); apply fresh_same; reflexivity].
     apply vinv_read; [exact Hinv|]. intros e He. destruct (entry_at_in _ _ _ _ He) as (t & Ht & Hin).
     unfold reader_tables in Ht. destruct (find (fun r => N.eqb (fst r) rid) (vs_readers st)) as [[rid0 ts]|] eqn:Fr; [|destruct Ht].
-    apply find_some in Fr. apply (i_readers G st (proj2 Hinv) rid0 ts t e (proj1 Fr) Ht Hin).
+    apply find_some in Fr. apply (entry_good_mono _ _ _ (rptr_pin G st)). apply (i_readers G st (proj2 Hinv) rid0 ts t e (proj1 Fr) Ht Hin).
 Qed.
 
 Lemma vinv_vs0 : vinvG (fun _ => []) vs0.
@@ -928,17 +966,17 @@ Proof.
     + intros f o v [].
 Qed.
 
-Lemma vinv_run : forall ops G st st', vinvG G st -> vs_run crc cfg ops st = Some st' ->
+Lemma vinv_run : forall ops G st st', vinvG G st -> vs_run crc cfg chk ops st = Some st' ->
   exists G', vinvG G' st' /\ fresh st st'.
 Proof.
   induction ops as [|o r IH]; intros G st st' Hinv H; cbn [vs_run] in H.
   - injection H as H. subst st'. exists G. split; [exact Hinv | apply fresh_refl].
-  - destruct (vs_step crc cfg st o) as [st1|] eqn:Es; [|discriminate].
+  - destruct (vs_step crc cfg chk st o) as [st1|] eqn:Es; [|discriminate].
     destruct (vinv_step G st o st1 Hinv Es) as (G1 & I1 & Hf1).
     destruct (IH G1 st1 st' I1 H) as (G' & I' & Hf'). exists G'. split; [exact I' | apply (fresh_trans st st1 st'); assumption].
 Qed.
 
-Lemma reachable_inv : forall st, reachable crc cfg st -> exists G, vinvG G st.
+Lemma reachable_inv : forall st, reachable crc cfg chk st -> exists G, vinvG G st.
 Proof. intros st [ops H]. destruct (vinv_run ops _ vs0 st vinv_vs0 H) as (G & I & _). exists G. exact I. Qed.
 
 (* ------------------------------------------------------------------------------ B1, B2 (reachable form), B4, ids *)
@@ -951,7 +989,7 @@ Proof.
   exfalso. apply Hn. unfold entry_good in Hg. rewrite Ho, Hc in Hg. apply Hg.
 Qed.
 
-Lemma live_values_intact_in : forall st, reachable crc cfg st ->
+Lemma live_values_intact_in : forall st, reachable crc cfg chk st ->
   (forall t e v, In t (vs_tables st) -> In e (tb_entries t) -> te_orig e = Some v -> fst (vs_resolve crc cfg st (te_enc e)) = Some v) /\
   (forall e v, In e (vs_index st) -> te_orig e = Some v -> fst (vs_resolve crc cfg st (te_enc e)) = Some v).
 Proof.
@@ -960,7 +998,7 @@ Proof.
   - intros e v He Ho. apply (live_resolves G st e v Hinv (i_index G st (proj2 Hinv) e He) Ho).
 Qed.
 
-Lemma live_pointers_have_files_in : forall st, reachable crc cfg st ->
+Lemma live_pointers_have_files_in : forall st, reachable crc cfg chk st ->
   forall e p, ((exists t, In t (vs_tables st) /\ In e (tb_entries t)) \/ In e (vs_index st)) ->
               te_orig e <> None -> vloc_pointer_of (te_enc e) = Some p ->
               exists f, In f (vs_files st) /\ vf_id f = vpt_file p.
@@ -972,23 +1010,33 @@ Proof.
   apply pointer_of_classify in Hp. rewrite Hp in Hg. apply Hg.
 Qed.
 
-Lemma old_reader_never_wrong_in : forall st, reachable crc cfg st ->
+Lemma old_reader_never_wrong_in : forall st, reachable crc cfg chk st ->
   forall rid ts t e v, In (rid, ts) (vs_readers st) -> In t ts -> In e (tb_entries t) -> te_orig e = Some v ->
     fst (vs_resolve crc cfg st (te_enc e)) = Some v \/ fst (vs_resolve crc cfg st (te_enc e)) = None.
 Proof.
   intros st Hr rid ts t e v H1 H2 H3 Ho. destruct (reachable_inv st Hr) as [G Hinv].
-  destruct (resolve_spec G st e Hinv (i_readers G st (proj2 Hinv) rid ts t e H1 H2 H3)) as [H _].
+  destruct (resolve_spec G st e Hinv (entry_good_mono _ _ _ (rptr_pin G st) (i_readers G st (proj2 Hinv) rid ts t e H1 H2 H3))) as [H _].
   destruct (H v Ho) as [Hs|[Hn _]]; [left; exact Hs | right; exact Hn].
 Qed.
 
 Lemma ids_never_reused_in : forall ops1 ops2 st1 st2,
-  vs_run crc cfg ops1 vs0 = Some st1 -> vs_run crc cfg ops2 st1 = Some st2 ->
+  vs_run crc cfg chk ops1 vs0 = Some st1 -> vs_run crc cfg chk ops2 st1 = Some st2 ->
   vs_next st1 <= vs_next st2 /\
   forall f, In f (vs_files st2) -> (exists f1, In f1 (vs_files st1) /\ vf_id f1 = vf_id f) \/ vs_next st1 <= vf_id f.
 Proof.
   intros ops1 ops2 st1 st2 H1 H2.
   destruct (vinv_run ops1 _ vs0 st1 vinv_vs0 H1) as (G1 & I1 & _).
   destruct (vinv_run ops2 G1 st1 st2 I1 H2) as (G2 & _ & [Hn Hf]). split; [exact Hn | exact Hf].
+Qed.
+
+Lemma old_reader_served_in : chk = true -> forall st, reachable crc cfg chk st ->
+  forall rid ts t e v, In (rid, ts) (vs_readers st) -> In t ts -> In e (tb_entries t) -> te_orig e = Some v ->
+    fst (vs_resolve crc cfg st (te_enc e)) = Some v.
+Proof.
+  intros Hc st Hr rid ts t e v H1 H2 H3 Ho. destruct (reachable_inv st Hr) as [G Hinv].
+  apply (live_resolves G st e v Hinv); [|exact Ho].
+  apply (entry_good_mono (rptr G st)); [|apply (i_readers G st (proj2 Hinv) rid ts t e H1 H2 H3)].
+  intros p w [Hp Hf]. split; [exact Hp | apply Hf; exact Hc].
 Qed.
 
 End Proofs.
@@ -1011,13 +1059,23 @@ Proof.
     injection H as H1 H2. subst. cbn [map te_key te_orig]. rewrite (IH _ _ _ _ Er). reflexivity.
 Qed.
 
-Theorem flush_records_values : forall crc cfg, flush_records_values_stmt crc cfg.
+Lemma cleanup_rt_tables : forall chk st, vs_tables (vs_cleanup_rt chk st) = vs_tables st.
 Proof.
-  intros crc cfg now tid mem st st' H. unfold vs_flush in H.
+  intros chk st. unfold vs_cleanup_rt. destruct (chk && negb (no_readers st)); [reflexivity|].
+  destruct (cleanup_same st) as (_ & _ & Et & _). exact Et.
+Qed.
+Lemma cleanup_rt_subset : forall chk st f, In f (vs_files (vs_cleanup_rt chk st)) -> In f (vs_files st).
+Proof.
+  intros chk st f H. unfold vs_cleanup_rt in H. destruct (chk && negb (no_readers st)); [exact H | apply cleanup_files_subset; exact H].
+Qed.
+
+Theorem flush_records_values : forall crc cfg chk, flush_records_values_stmt crc cfg chk.
+Proof.
+  intros crc cfg chk now tid mem st st' H. unfold vs_flush in H.
   destruct (flush_entries crc cfg now st mem) as [[st1 es]|] eqn:Ef; [|discriminate]. injection H as H. subst st'.
   exists {| tb_id := tid; tb_entries := es; tb_oldest := table_oldest es |}.
   split; [|split; [reflexivity | apply (flush_entries_map crc cfg mem now st st1 es Ef)]].
-  match goal with |- In _ (vs_tables (vs_cleanup ?s)) => destruct (cleanup_same s) as (_ & _ & Et & _); rewrite Et end.
+  rewrite cleanup_rt_tables.
   cbn [set_index set_tables vs_tables]. apply in_app_iff. right. left. reflexivity.
 Qed.
 
@@ -1063,12 +1121,14 @@ Qed.
 
 Lemma all_synced_cleanup : forall st, all_synced st -> all_synced (vs_cleanup st).
 Proof. intros st H f Hin. apply H. apply cleanup_files_subset. exact Hin. Qed.
+Lemma all_synced_cleanup_rt : forall chk st, all_synced st -> all_synced (vs_cleanup_rt chk st).
+Proof. intros chk st H f Hin. apply H. apply (cleanup_rt_subset chk). exact Hin. Qed.
 
-Lemma all_synced_step : forall crc cfg st o st', all_synced st -> vs_step crc cfg st o = Some st' -> all_synced st'.
+Lemma all_synced_step : forall crc cfg chk st o st', all_synced st -> vs_step crc cfg chk st o = Some st' -> all_synced st'.
 Proof.
-  intros crc cfg st o st' Hs H. destruct o as [now tid mem|ins tid out|keep|rid|rid|tid i|i|rid tid i]; cbn [vs_step] in H.
+  intros crc cfg chk st o st' Hs H. destruct o as [now tid mem|ins tid out|keep|rid|rid|tid i|i|rid tid i]; cbn [vs_step] in H.
   - unfold vs_flush in H. destruct (flush_entries crc cfg now st mem) as [[st1 es]|] eqn:Ef; [|discriminate].
-    injection H as H. subst st'. apply all_synced_cleanup.
+    injection H as H. subst st'. apply all_synced_cleanup_rt.
     assert (S1 : sync_but_active st1) by (apply (sba_flush_entries _ _ _ _ _ _ _ (fun f Hin _ => Hs f Hin) Ef)).
     intros f' Hin. change (if VLOG_FLUSH_SYNCS_ACTIVE then vs_sync_active st1 else st1) with (vs_sync_active st1) in Hin.
     cbn [set_index set_tables vs_files vs_sync_active set_files] in Hin.
@@ -1077,7 +1137,7 @@ Proof.
   - unfold vs_compact in H.
     destruct (negb (forallb (fun i => existsb (fun t => N.eqb (tb_id t) i) (vs_tables st)) ins)); [discriminate|].
     destruct (pick_entries (flat_map tb_entries (filter (is_input ins) (vs_tables st))) out) as [es|]; [|discriminate].
-    injection H as H. subst st'. apply all_synced_cleanup. exact Hs.
+    injection H as H. subst st'. apply all_synced_cleanup_rt. exact Hs.
   - injection H as H. subst st'. unfold vs_reopen. apply all_synced_cleanup. intros f' Hin. cbn [vs_files] in Hin.
     apply in_update_file in Hin. destruct Hin as (f & Hin & E). subst f'.
     destruct (N.eqb (vf_id f) (vs_active st)); [reflexivity | apply Hs; exact Hin].
@@ -1088,51 +1148,70 @@ Proof.
   - injection H as H. subst st'. unfold vs_read_entry. destruct (entry_at (reader_tables rid (vs_readers st)) tid i); exact Hs.
 Qed.
 
-Theorem files_synced : forall crc cfg, files_synced_stmt crc cfg.
+Theorem files_synced : forall crc cfg chk, files_synced_stmt crc cfg chk.
 Proof.
-  intros crc cfg st [ops H].
+  intros crc cfg chk st [ops H].
   assert (Hs0 : all_synced vs0) by (intros f []).
-  assert (G : forall l s, all_synced s -> vs_run crc cfg l s = Some st -> all_synced st).
+  assert (G : forall l s, all_synced s -> vs_run crc cfg chk l s = Some st -> all_synced st).
   { induction l as [|o r IH]; intros s Hs Hr; cbn [vs_run] in Hr.
     - injection Hr as Hr. subst. exact Hs.
-    - destruct (vs_step crc cfg s o) as [s1|] eqn:Es; [|discriminate].
-      apply (IH s1 (all_synced_step _ _ _ _ _ Hs Es) Hr). }
+    - destruct (vs_step crc cfg chk s o) as [s1|] eqn:Es; [|discriminate].
+      apply (IH s1 (all_synced_step _ _ _ _ _ _ Hs Es) Hr). }
   apply (G ops vs0 Hs0). exact H.
 Qed.
 
 (* ------------------------------------------------------------------------------ the statements of VlogSpec.v *)
-Theorem live_values_intact : forall crc cfg, live_values_intact_stmt crc cfg.
-Proof. intros crc cfg H. apply (live_values_intact_in crc cfg H). Qed.
-Theorem live_pointers_have_files : forall crc cfg, live_pointers_have_files_stmt crc cfg.
-Proof. intros crc cfg H. apply (live_pointers_have_files_in crc cfg H). Qed.
-Theorem old_reader_never_wrong : forall crc cfg, old_reader_never_wrong_stmt crc cfg.
-Proof. intros crc cfg H. apply (old_reader_never_wrong_in crc cfg H). Qed.
-Theorem ids_never_reused : forall crc cfg, ids_never_reused_stmt crc cfg.
-Proof. intros crc cfg H. apply (ids_never_reused_in crc cfg H). Qed.
+Theorem live_values_intact : forall crc cfg chk, live_values_intact_stmt crc cfg chk.
+Proof. intros crc cfg chk H. apply (live_values_intact_in crc cfg chk H). Qed.
+Theorem live_pointers_have_files : forall crc cfg chk, live_pointers_have_files_stmt crc cfg chk.
+Proof. intros crc cfg chk H. apply (live_pointers_have_files_in crc cfg chk H). Qed.
+Theorem old_reader_never_wrong : forall crc cfg chk, old_reader_never_wrong_stmt crc cfg chk.
+Proof. intros crc cfg chk H. apply (old_reader_never_wrong_in crc cfg chk H). Qed.
+Theorem ids_never_reused : forall crc cfg chk, ids_never_reused_stmt crc cfg chk.
+Proof. intros crc cfg chk H. apply (ids_never_reused_in crc cfg chk H). Qed.
 
-(* ------------------------------------------------------------------------------ B4: the refutation *)
+(* B4, positive: with the test at the run-time call sites every open reader is served.  The flag is the GENERATED one:
+   the proof needs VLOG_CLEANUP_CHECKS_READERS to be (convertible to) true *)
+Theorem old_reader_served : old_reader_served_stmt.
+Proof.
+  intros H crc cfg. unfold old_reader_safe_stmt.
+  apply (old_reader_served_in crc cfg VLOG_CLEANUP_CHECKS_READERS H eq_refl).
+Qed.
+
+Theorem cleanup_runs_without_readers : cleanup_runs_without_readers_stmt.
+Proof. intros chk st H. unfold vs_cleanup_rt, no_readers. rewrite H. cbn [negb]. rewrite andb_false_r. reflexivity. Qed.
+Theorem cleanup_deferred_with_readers : cleanup_deferred_with_readers_stmt.
+Proof.
+  intros st H. unfold vs_cleanup_rt, no_readers. destruct (vs_readers st); [contradiction H; reflexivity | reflexivity].
+Qed.
+
+(* ------------------------------------------------------------------------------ B4: the rule before the repair (regression record) *)
 Definition w_crc (d : list byte) : N := 0.
 Definition w_cfg : vcfg := {| cf_threshold := 2; cf_max := 40; cf_level := 1; cf_index := false |}.
 Definition w_flush1 : vop := VFlush 0 10 [([107], Some [7; 7; 7; 7])].
 Definition w_flush2 : vop := VFlush 0 11 [([107], Some [6; 6; 6])].
 Definition w_out : list (list byte * list byte) :=
   Eval vm_compute in
-    match vs_run w_crc w_cfg [w_flush1; w_flush2] vs0 with
+    match vs_run w_crc w_cfg false [w_flush1; w_flush2] vs0 with
     | Some s => match find_table 11 (vs_tables s) with Some t => map (fun e => (te_key e, te_enc e)) (tb_entries t) | None => [] end
     | None => []
     end.
 (* two flushes (the first fills file 1, the second goes to file 2), a reader takes the table set, a compaction keeps
-   only the newer version, its clean-up removes file 1; the reader's entry of table 10 no longer resolves *)
+   only the newer version.  Without the test (chk = false) its clean-up removes file 1 and the reader's entry of table 10
+   no longer resolves; with the test (w_st_chk) file 1 stays until the reader has gone and the next flush runs (w_st_after) *)
 Definition w_ops : list vop := [w_flush1; w_flush2; VReaderOpen 1; VCompact [10; 11] 12 w_out].
-Definition w_st : vstate := Eval vm_compute in match vs_run w_crc w_cfg w_ops vs0 with Some s => s | None => vs0 end.
+Definition w_st : vstate := Eval vm_compute in match vs_run w_crc w_cfg false w_ops vs0 with Some s => s | None => vs0 end.
 Definition w_ts : list vtable := Eval vm_compute in reader_tables 1 (vs_readers w_st).
 Definition w_t : vtable := Eval vm_compute in match find_table 10 w_ts with Some t => t | None => {| tb_id := 0; tb_entries := []; tb_oldest := 0 |} end.
 Definition w_e : tentry := Eval vm_compute in match tb_entries w_t with e :: _ => e | [] => {| te_key := []; te_enc := []; te_orig := None |} end.
+Definition w_st_chk : vstate := Eval vm_compute in match vs_run w_crc w_cfg true w_ops vs0 with Some s => s | None => vs0 end.
+Definition w_ops_after : list vop := w_ops ++ [VReaderClose 1; VFlush 0 13 [([108], Some [5; 5; 5])]].
+Definition w_st_after : vstate := Eval vm_compute in match vs_run w_crc w_cfg true w_ops_after vs0 with Some s => s | None => vs0 end.
 
-Theorem old_reader_unprotected : old_reader_unprotected_stmt.
+Theorem old_reader_unprotected_without_check : old_reader_unprotected_without_check_stmt.
 Proof.
   exists w_crc, w_cfg. intros Hsafe.
-  assert (Hrun : vs_run w_crc w_cfg w_ops vs0 = Some w_st) by (vm_compute; reflexivity).
+  assert (Hrun : vs_run w_crc w_cfg false w_ops vs0 = Some w_st) by (vm_compute; reflexivity).
   assert (Hc : fst (vs_resolve w_crc w_cfg w_st (te_enc w_e)) = Some [7; 7; 7; 7]).
   { apply (Hsafe w_st (ex_intro _ w_ops Hrun) 1 w_ts w_t w_e).
     - vm_compute. left. reflexivity.
